@@ -727,7 +727,7 @@ def evidence(tier, seed, total):
     return {
         'level': LEVEL,
         'coverage': {
-            'rule': 'Each world is a seeded layout of 1-5 IP subnets joined by the repo\'s IPRouter with 0-1 BIPBBMD and 0-3 BIPSimple nodes per subnet, full or '
+            'rule': '[additions: register() again while registered with another TTL; expiry races of two foreign devices with staggered TTLs; the declared-remaining promise of every Read-FDT-Ack is held against later listings and forwarding] Each world is a seeded layout of 1-5 IP subnets joined by the repo\'s IPRouter with 0-1 BIPBBMD and 0-3 BIPSimple nodes per subnet, full or '
                     'partial distribution tables written as /32 (two-hop) or /24 (one-hop directed broadcast) entries, 0-4 BIPForeign devices on a subnet without BBMD '
                     'with TTLs 1-300 s, each stack running the real UDPMultiplexer/AnnexJCodec on the in-memory director. 5-40 broadcasts from every kind of node at '
                     'seeded instants (30% placed on registration / TTL / TTL+grace edges), unregister / re-register, Delete-FDT-Entry and Read-FDT sent by a raw host '
